@@ -67,6 +67,10 @@ CHECKS.update({
    text="varintBitstreamSet/Get for each word type (uint8_t..uint64_t), each start-bit residue modulo the word size and each width up to the word size (thorough: all; quick: all for 8/16-bit words, 19 representative widths for 32/64): value bits land MSB-first exactly at [start, start+n), every other bit of the touched words is unchanged, the second word is touched only when straddling, Get returns exactly those bits. The sign-helper constant is representable (compile witness). restore(prepare(v))==v is NOT decided.",
    note=TB + "Precondition: val < 2^n (assert in the source); n <= bits per word.",
    tech="static analysis: bit-level abstract interpretation with congruence partitioning on LLVM IR"),
+ "C06": dict(engine="E-TABLE + dataflow", cat="other", ref="DESIGN.md 4/C06",
+   text="Four structural necessary conditions of the adaptive container's losslessness: header byte == reported type == dispatched type (SSA identity); encode and decode dispatch tables have equal case sets, each case calls the encoder/decoder of the same codec family, and every value the selector can return is an explicit case of both; every path of the selection decision tree to BITMAP establishes fitsInBitmapRange, isSorted, uniqueCount == count and count below the exact-count threshold; no length-taking sub-decoder receives a literal length. Losslessness of each sub-codec for every array is NOT decided (C02's reason).",
+   note=TB + "2 known findings (literal 1 MiB length for the DICT and BITMAP sub-decoders: the API has no input length).",
+   tech="static analysis: SSA identity, switch-table and path-condition extraction on LLVM IR"),
 })
 NA = {
  "C02": "losslessness of array codecs is value-level equality after arithmetic; no clause has a shape in the code that static analysis can decide (DESIGN.md 4/C02)",
